@@ -1014,3 +1014,10 @@ V("props-offsets-16-bit", "break", ["C01", "C13", "C19"], PB, "        self.prop
   "        self.props_dom_offsets = np.empty(self.var_bounds[-1, RG_END], dtype=np.int16)\n", "the per-constraint copy of the view offsets stored as 16-bit integers", None, expect_rule="R-VALUE-WIDTH",
   also=[{"file": "nucs/constants.py", "edits": [{"old": "    int32[:, :],  # props_dom_offsets\n", "new": "    int16[:, :],  # props_dom_offsets\n"},
                                                 {"old": "from numba import bool, int32, int64, types, uint8, uint16  # type: ignore\n", "new": "from numba import bool, int16, int32, int64, types, uint8, uint16  # type: ignore\n"}]}])
+# ---- R-SHAVE bound-argument-range (round 6, C16-x1)
+V("shaving-bound-reaches-2", "break", ["C16", "C10"], SH, None, None, "bound += 1 moved out of the not-shaved branch, the wrap-around test stays inside: after a successful shave of a MAX the next probe uses bound 2",
+  "shaving_consistency_algorithm", expect_rule="R-SHAVE",
+  edits=[{"old": "        start_idx = dom_idx\n        if has_shaved:\n", "new": "        start_idx = dom_idx\n        bound += 1\n        if has_shaved:\n"},
+         {"old": "            # this is one of the many shaving strategies\n            bound += 1\n", "new": ""}])
+V("shaving-bound-toggle", "neutral", ["C16", "C10", "C04"], SH, "            bound += 1\n            if bound > MAX:\n                bound = MIN\n                start_idx += 1\n",
+  "            if bound == MAX:\n                bound = MIN\n                start_idx += 1\n            else:\n                bound = MAX\n", "the selector toggled instead of incremented and wrapped")
